@@ -1467,6 +1467,11 @@ def forget_closure_captures(c, i):
             c.st.add_le(a2, b2, d)
 
 
+@model(r"^<(bool|char|u8|u16|u32|u64|usize|i8|i16|i32|i64|isize) as std::default::Default>::default$")
+def m_scalar_default(c):
+    return ("n", None, 0)
+
+
 # =========================================================================== misc pure / formatting: no effect on tracked state
 @model(r"^core::fmt::", r"^std::fmt::", r"^log::", r"^std::hint::must_use$", r"^anyhow::", r"^<T as std::string::ToString>::to_string$",
        r"^std::clone::impls::<impl std::clone::Clone for ", r"^<\w+ as std::default::Default>::default$", r"^<bool as std::ops::Not>::not$",
